@@ -73,6 +73,7 @@ type scen struct {
 	lastOK map[string]*replayRec
 
 	accepted, rejectedCorrupt int
+	unclassified              int
 	fails                     []failure
 }
 
